@@ -298,7 +298,7 @@ def r4_tensor_json(ctx):
                 ctx.violation("C16.R4", fp, st_, f"the refusal of a length mismatch {kind} `{g_[:80]}`: some mismatching tensors are accepted", construct="length check unconditional")
     sj = ctx.ix.func(MOD, f"{CLS}._save_json", "C16.R4")
     lj = ctx.ix.func(MOD, f"{CLS}._load_json", "C16.R4")
-    wkeys = set()
+    wkeys, wmap = set(), {}
     for x in ast.walk(sj.node):
         if isinstance(x, ast.Dict) and all(isinstance(k, ast.Constant) for k in x.keys) and any(U(v).startswith("self._") for v in x.values):
             wkeys = {k.value for k in x.keys}
@@ -306,6 +306,8 @@ def r4_tensor_json(ctx):
     jvars = [U(st.targets[0]) for st in statements(lj.node) if isinstance(st, ast.Assign) and isinstance(st.value, ast.Call) and U(st.value.func) in ("json.load", "json.loads")]
     if not jvars:
         raise AnalysisError("C16.R4", "anchor vanished: json.load(...) in IndividualParameters._load_json")
+    if not wmap:
+        raise AnalysisError("C16.R4", "anchor vanished: the dictionary written by IndividualParameters._save_json")
     jv = jvars[0]
     rkeys = {x.slice.value for x in ast.walk(lj.node) if isinstance(x, ast.Subscript) and U(x.value) == jv and isinstance(x.slice, ast.Constant)}
     ctx.check(wkeys == rkeys and len(wkeys) == 3, "C16.R4", lj, lj.node, f"JSON keys written == keys read: {sorted(wkeys)}", f"JSON writer keys {sorted(wkeys)} != reader keys {sorted(rkeys)}",
